@@ -1,6 +1,6 @@
 #!/bin/sh
 # lib/import_seed.sh <Cxx> <C|D|E|F>  — after lib/confirm_seed.sh succeeded: copy a round-2/3 seed into /verif/seeded/<id>/
-P=$1; X=$2; case "$X" in E|F) SRC=/tmp/seed/${P}_out3/$X;; G|H) SRC=/tmp/seed/${P}_out4/$X;; I|J) SRC=/tmp/seed/${P}_out5/$X;; K|L) SRC=/tmp/seed/${P}_out6/$X;; M|N) SRC=/tmp/seed/${P}_out7/$X;; O|P) SRC=/tmp/seed/${P}_out8/$X;; Q|R) SRC=/tmp/seed/${P}_out9/$X;; *) SRC=/tmp/seed/${P}_out2/$X;; esac; DST=/verif/seeded/$P$X
+P=$1; X=$2; case "$X" in E|F) SRC=/tmp/seed/${P}_out3/$X;; G|H) SRC=/tmp/seed/${P}_out4/$X;; I|J) SRC=/tmp/seed/${P}_out5/$X;; K|L) SRC=/tmp/seed/${P}_out6/$X;; M|N) SRC=/tmp/seed/${P}_out7/$X;; O|P) SRC=/tmp/seed/${P}_out8/$X;; Q|R) SRC=/tmp/seed/${P}_out9/$X;; S|T) SRC=/tmp/seed/${P}_out10/$X;; *) SRC=/tmp/seed/${P}_out2/$X;; esac; DST=/verif/seeded/$P$X
 rm -rf "$DST"; mkdir -p "$DST/demo"
 cp "$SRC/patch.diff" "$DST/patch.diff"; cp "$SRC/notes.md" "$DST/notes.md" 2>/dev/null
 D=$SRC/demo; [ -d "$D" ] || D=$SRC
